@@ -1,5 +1,6 @@
 """C01 — adding an exact duration translates the instant exactly."""
 from . import ALL_MODES, T1_CAL, CAL_LEMMAS
+from . import tp_bounded
 
 ID = "C01"
 LEVEL = "proof"
@@ -19,6 +20,8 @@ EXPLANATION = (
     "Proved over the reals: exact for whole-second values below 2**53; the 'within a "
     "microsecond' clause for fractional values rests on the float-as-real assumption.")
 ASSUMPTIONS = [
+    "the bounded grid in this check adds nothing on a tree where every obligation is discharged; it is a safety net for changed code that leaves the verifier's reach (reported `undecided` by the proof part), labelled bounded, never counted as proved",
+   
     "fractional time fields / duration components: proved over mathematical reals; IEEE "
     "rounding (the 'within a microsecond' clause) is not decided by this check",
     "known finding KF-C01-1 is excluded from __add__'s own proof by its region predicate; "
@@ -31,3 +34,9 @@ LEVEL_TEXT = ("Proof: postconditions instant(result) == instant(p) + len(d), sam
 LEVEL_NOTE = ("Floats modelled as reals; PyVC translation and z3/cvc5 trusted; callee "
               "contracts (calendar helpers) are proved under C03. One known finding "
               "(24:00 + zero duration) is region-excluded and reported on every run.")
+
+
+def bounded(tier, seed, repo):
+    """Safety net for a changed tree on which a function of the cone has fallen out of the
+    verifier's reach (the proof then says `undecided`); never counted as proved."""
+    return tp_bounded.check_c01(tier, seed, repo)
